@@ -9,6 +9,7 @@ Case lines (every string argument hex, "-" = empty; integers decimal):
   getnow <loc> <tok> <ttlNs> <key> <absent|p<bodyhex>> <nominalNowNs>
   geturl <rawpath> <none|authheader> <signing> <ttlNs> <key> <absent|p<bodyhex>> <nominalNowNs>
   kcsign / kcverify: as sign / verify, run through sdk/go/keepclient
+  getremote <loc> <tok> <configured remote ids|-> <ttlNs> <key> <absent|p<bodyhex> at the remote> <nominalNowNs>
   put <body> <tok> <tok2> <signing> <ttlNs> <key> <nominalNowNs>
 
 Time: the Go code reads the real clock. `verify`/`get` cases only carry expiry fields that are
@@ -59,6 +60,8 @@ NOMINAL_NOW_NS = 0x70000000 * 10 ** 9 + 500000000
 NOMINAL_NOW_S = 0x70000000
 STORED = [b"foo", b"", b"verif-c07 block", b"bar\n"]      # blocks the keepstore driver stores up front
 STORED_BY_HASH = {hashlib.md5(b).hexdigest().encode(): b for b in STORED}
+REMOTE = [b"remote-only block", b"foo", b"another remote block\n"]   # blocks the stub remote Keep server holds
+REMOTE_BY_HASH = {hashlib.md5(b).hexdigest().encode(): b for b in REMOTE}
 DAY = 86400 * 10 ** 9
 
 
@@ -73,7 +76,7 @@ def U(s):
 def channel(case):
     if case.startswith(("kcsign ", "kcverify ")):
         return "kc"
-    return "ks" if case.startswith(("get ", "put ", "getnow ", "geturl ")) else "sdk"
+    return "ks" if case.startswith(("get ", "put ", "getnow ", "geturl ", "getremote ")) else "sdk"
 
 
 # ----------------------------------------------------------------------------- reference (property text / blob.rb)
@@ -217,6 +220,20 @@ def oracle(case, impl):
         op, impl = "verify", impl[:-5]
     if op == "kcsign":
         op = "sign"
+    if op == "getremote":
+        # +R without +A: data may only come from the remote cluster, never from a local volume
+        loc = U(f[1])
+        left, _, seen = impl.partition(" | ")
+        g = left.split(" ")
+        if g[0] == "200" and b"+A" not in loc:
+            body = U(g[1]) if len(g) > 1 else b""
+            if hashlib.md5(body).hexdigest().encode() != loc[:32]:
+                return "GET returned data that does not belong to the requested hash"
+            if seen == "-" and body != b"":
+                return "keepstore returned block data for a locator without a local signature without asking the remote cluster"
+            if seen != "-" and REMOTE_BY_HASH.get(loc[:32]) != body:
+                return "block data returned on the remote-proxy path is not what the remote cluster holds"
+        return None
     if op == "geturl":
         hdr, signing, ttl, key = (None if f[2] == "none" else U(f[2])), f[3] == "1", int(f[4]), U(f[5])
         g = impl.split(" ")
@@ -353,7 +370,7 @@ def compare(case, impl, model):
 
 def nontrivial_key(case, impl):
     f = case.split(" ")
-    if f[0] in ("put", "getnow"):
+    if f[0] in ("put", "getnow", "getremote"):
         return case
     if f[0] == "geturl":
         return case if b"A" in U(f[1]) else None
@@ -826,6 +843,70 @@ def gen_url(rng, tier):
     return cases
 
 
+def gen_remote(rng, tier):
+    """the remote-proxy exit of handleGET: locators with +R and without +A"""
+    cases = []
+    sigch = "abcdef0123456789"
+    for _ in range(120 if tier == "quick" else 3000):
+        r = rng.random()
+        if r < 0.45:
+            h = rng.choice(list(REMOTE_BY_HASH))
+        elif r < 0.7:
+            h = rng.choice([x for x in STORED_BY_HASH if x != b"d41d8cd98f00b204e9800998ecf8427e" or rng.random() < 0.3])
+        else:
+            h = g_hash(rng)
+        if rng.random() < 0.04:
+            h = h.upper()
+        parts = [h]
+        if rng.random() < 0.8:
+            # keepclient.Get (C03's ground) rejects a reply whose length contradicts the size hint,
+            # so blocks the stub remote holds get their true size
+            held = REMOTE_BY_HASH.get(h)
+            parts.append(b"%d" % (len(held) if held is not None else rng.choice([0, 3, 17, rng.randrange(1 << 26)])))
+        hints = [x for x in g_hints(rng) if not x.startswith(b"R")]
+        def rhint():
+            rid = rng.choice([b"zremo", b"zremo", b"zremo", b"zrem2", b"other", b"ZREMO"])
+            sig = "".join(rng.choice(sigch) for _ in range(rng.choice([1, 8, 40]))).encode() + rng.choice([b"", b"@" + b"%08x" % g_exp(rng)])
+            q = rng.random()
+            if q < 0.75:
+                return b"R" + rid + b"-" + sig
+            if q < 0.8:
+                return b"R" + rid + b"-"                 # 7 characters: too short for the remote-hint shape
+            if q < 0.85:
+                return b"R" + rid                          # no dash
+            if q < 0.9:
+                return b"R" + rid + b"x" + sig             # character 6 is not '-'
+            if q < 0.95:
+                return b"R" + rid[:3] + b"-" + sig
+            return b"R"
+        rh = [rhint() for _ in range(rng.choice([1, 1, 1, 2, 3]))]
+        allh = hints + rh
+        rng.shuffle(allh)
+        loc = b"+".join(parts + allh)
+        q = rng.random()
+        if q < 0.45:
+            tok = ("v2/zzzzz-gj3su-" + "".join(rng.choice(LHEX) for _ in range(15)) + "/" + "".join(rng.choice(TOKCH) for _ in range(rng.choice([10, 39, 41, 50])))).encode()
+        elif q < 0.55:
+            tok = ("v2/" + rng.choice(["zremo", "zrem2", "other", "zzzzz"]) + "-gj3su-000000000000000/" + "".join(rng.choice(LHEX) for _ in range(40))).encode()
+        elif q < 0.65:
+            tok = "".join(rng.choice("abcdefghijklmnopqrstuvwxyz0123456789") for _ in range(rng.choice([40, 41, 50]))).encode()
+        elif q < 0.72:
+            tok = b""
+        elif q < 0.8:
+            tok = rng.choice([b"v2/x", b"v2//", b"v2/a/b/c", b"v3/a/bcd", b"V2/a/b", b"v2/a/" + b"A" * 41])
+        else:
+            tok = g_token(rng)
+            while any(c in tok for c in WS + b"\x0b\x00"):
+                tok = g_token(rng)
+        remotes = rng.choice(["zremo", "zremo", "zremo,zrem2", "zrem2", "-"])
+        body = REMOTE_BY_HASH.get(loc[:32])
+        rpresent = "absent" if body is None else "p" + body.hex()
+        if b"/" in loc or b"+A" in loc or not safe_for_clock(loc):
+            continue
+        cases.append(f"getremote {H(loc)} {H(tok)} {remotes} {g_ttl(rng)} {H(g_key(rng) or b'k')} {rpresent} {NOMINAL_NOW_NS}")
+    return cases
+
+
 def gen_kc(rng, tier):
     """the same sign/verify questions asked through sdk/go/keepclient's re-exports"""
     n = 60 if tier == "quick" else 3000
@@ -837,7 +918,7 @@ def gen_kc(rng, tier):
 
 def generate(rng, tier):
     return (gen_verify(rng, tier) + gen_sign(rng, tier) + gen_near(rng, tier) + gen_manifest(rng, tier) + gen_ks(rng, tier)
-            + gen_url(rng, tier) + gen_kc(rng, tier))
+            + gen_url(rng, tier) + gen_kc(rng, tier) + gen_remote(rng, tier))
 
 
 def describe(cases, impl):
@@ -850,6 +931,9 @@ def describe(cases, impl):
         if f[0] in ("verify", "near", "kcverify"):
             v = r.split(" ")[0]
             verdicts[v] = verdicts.get(v, 0) + 1
+        if f[0] == "getremote":
+            k = "remote:" + r.split(" ")[0] + ("" if r.endswith("| -") else "+forwarded")
+            status[k] = status.get(k, 0) + 1
         if f[0] in ("get", "put", "getnow", "geturl"):
             s = r.split(" ")[0]
             status[s] = status.get(s, 0) + 1
